@@ -84,6 +84,7 @@ def run_strings(chk, strings, name, label, observed, chunk=500):
                 if len({x[0] for x in us}) >= 2 and any(x[0].isupper() for x in us):
                     chk.nontrivial([a["op"], a["args"][0]["u"], a["args"][1]["u"]])
     chk.cov["applications_checked"] = chk.cov.get("applications_checked", 0) + napps
+    chk.evals(napps)       # every application is compared on its own: a case of its own
     return res, recs
 
 
@@ -108,7 +109,7 @@ def run(chk):
     for r in recs[:4]:
         chk.sample({"query": r["text"], "result": lang.show(r)})
     chk.cov["exhaustive"] = False
-    chk.cov["rule"] = ("one evaluation = one query over quantities with * / ^ and parentheses (two operands, trees of depth <= 3, (q)^n next to the n-fold "
+    chk.cov["rule"] = ("one evaluation = one * / ^ application compared on its own (operands and result as the hook reports them), or one whole query over quantities with * / ^ and parentheses (two operands, trees of depth <= 3, (q)^n next to the n-fold "
                        "product); every * / ^ application and every result is compared (SI value in F_p, base dimensions exactly); non-trivial = an "
                        "application whose operands carry >= 2 different units, one of them derived, distinct by (operator, operand units)")
     chk.assumptions += ["per-unit factors are the ones the tool itself exhibits (standard values are C05's subject)", "offset scales are excluded (C09)"]
